@@ -305,6 +305,110 @@ def rule_wit_for(prop):
     return rule
 
 
+def _clone_position(env, cb, adt, r):
+    """(ok, why): every way the counter of the value returned by `clone` gets its final value is judged (see IND)"""
+    from guards import Prover, bool_facts, block_facts
+    from r_m1 import rewrite
+    R, F, ev = env.R, env.F, env.ev
+    ctx = env.ctx(cb, adt, None)
+    t = unref(ev.local(ctx, 0))
+    if not (t[0] == "agg" and r.get("pos") is not None and r["pos"] < len(t[2])):
+        return False, "the returned value is not built as a struct: %s" % fmt(t)[:100]
+    cf = t[2][r["pos"]]
+    L = r.get("len_term")
+    if L is None:
+        return False, "length of the source not known"
+
+    def strip_conv(x):
+        x = unref(x)
+        while x[0] == "call" and x[1] == "conv" and x[2]:
+            x = unref(x[2][0])
+        return x
+
+    def is_load(v):
+        v = strip_conv(v)
+        return v[0] == "atomic" and v[1] == "load" and R.classify(v[2]) == ("pos", adt)
+
+    def unclone(x):
+        return rewrite(x, lambda y: unref(y[2][0]) if (y[0] == "call" and y[1] == "clone" and len(y[2]) == 1) else None)
+
+    def alts(v):
+        """[(facts, value)]"""
+        v = strip_conv(v)
+        if v[0] == "call" and v[1] == "Option::unwrap_or" and len(v[2]) == 2:
+            o, d = unref(v[2][0]), v[2][1]
+            if o[0] == "call" and o[1] in ("bool::then_some", "bool::then") and len(o[2]) == 2:
+                pv = o[2][1] if o[1] == "bool::then_some" else ev.closure_ret(ctx, o[2][1], [])
+                return [(bool_facts(o[2][0], True) + f, x) for (f, x) in alts(pv)] + \
+                       [(bool_facts(o[2][0], False) + f, x) for (f, x) in alts(d)]
+            return [([], ev.payload(ctx, o)), ([], d)]
+        if v[0] == "call" and v[1] == "min" and len(v[2]) == 2:
+            a, b = strip_conv(v[2][0]), strip_conv(v[2][1])
+            return [([("le", a, b)], a), ([("lt", b, a)], b)]
+        if v[0] == "phi":
+            af = ev.alt_facts.get(v, {})
+            out_ = []
+            for x in v[1]:
+                for (f, y) in alts(x):
+                    out_.append((list(af.get(x, [])) + f, y))
+            return out_
+        return [([], v)]
+    cases = []
+    why0 = None
+    # (1) the value the counter is built with
+    if cf[0] == "call" and cf[1] == "clone" and cf[2] and R.classify(cf[2][0])[0] == "pos":
+        ctr_adt = adt_of(r["fields"][r["pos"]]["ty"])
+        ccd = F.method_impl("std::clone::Clone", "clone", ctr_adt)
+        ct = unref(ev.local(env.ctx(F.bodies[ccd], ctr_adt, None), 0)) if ccd and ccd in F.bodies else None
+        inner = strip_conv(ct[2][0]) if (ct is not None and ct[0] == "agg" and len(ct[2]) == 1) else None
+        if inner is not None and inner[0] == "atomic" and inner[1] == "load" and unref(inner[2])[0] == "field" \
+                and unref(inner[2])[1] == ("deref", ("param", 1)):
+            init = [([], "LOAD")]
+        else:
+            return False, "the counter is cloned by something that is not `new(load of the old value)`"
+    else:
+        vals = [x for x in subterms(cf) if x[0] == "call" and x[1] == "conv"]
+        inner = cf
+        while inner[0] == "agg" and len(inner[2]) == 1:
+            inner = inner[2][0]
+        init = alts(inner)
+    # (2) stores into the counter of the new value after it was built
+    cell = cf
+    while cell[0] == "agg" and len(cell[2]) == 1:
+        cell = cell[2][0]
+    stores = []
+    for e in env.flat_events(cb, adt, None):
+        if e.kind == "atomic" and e.info["op"] == "store" and unref(e.info["place"]) == cell \
+                and not any(x == ("param", 1) for x in subterms(e.info["place"])):
+            stores.append(e)
+    if stores:
+        sb = {e.info["top_bb"] for e in stores}
+        for e in stores:
+            others = sb - {e.info["top_bb"]}
+            tgt = cb.term(e.info["top_bb"]).get("target")
+            if tgt is not None and any(o in cb.reachable(tgt) for o in others):
+                return False, "the new counter is stored more than once on a path"
+            for (f, v) in alts(e.args[1]):
+                cases.append((list(env.event_facts(e)) + f, v))
+        if cb.paths_avoiding(0, set(cb.exits()), sb):
+            cases.extend(init)
+    else:
+        cases = init
+    Lc = unclone(L)
+    for (fs, v) in cases:
+        if v == "LOAD" or is_load(v):
+            continue
+        p = Prover(fs, ev, ctx)
+        exhausted = any(len(f) == 3 and f[0] == "le" and unclone(f[1]) == Lc and is_load(f[2]) for f in fs) or \
+            any(is_load(x) and p.le(Lc, x) for f in fs if len(f) == 3 for x in (f[1], f[2]))
+        vv = unclone(strip_conv(v)) if isinstance(v, tuple) else v
+        if not (exhausted and (vv == Lc or p.le(Lc, vv))):
+            return False, "it can start at %s%s" % (fmt(vv)[:70], "" if exhausted else " while the original is not known to be exhausted")
+    if not cases:
+        return False, "no value found for the new counter"
+    return True, None
+
+
 def rule_ind(env, shared):
     """IND: the borrowing iterators (over a slice, over a range) contain no unsafe operation and no interior mutability
     but the by-value counter; con_iter() passes the collection's own slice (no copy); delivered references come from
@@ -367,12 +471,24 @@ def rule_ind(env, shared):
                             not any(y[0] in ("ref",) for y in ct[2]):
                         has_load = True
                         cf = ct
-            shares = cf is None or cf[0] in ("ref", "param", "field", "deref") or not has_load
+            # (a counter built afresh from a plain value is not shared whatever the value is; whether it is the right value
+            #  is the next obligation)
+            fresh = cf is not None and cf[0] == "agg" and not any(x[0] in ("ref", "param") for x in subterms(cf))
+            shares = cf is None or cf[0] in ("ref", "param", "field", "deref") or not (has_load or fresh)
             k = "IND|%s|clone" % nm
             okk = not shares
             out.append(Ob("IND", k, "ok" if okk else "viol", cb.file_line(),
                           "clone owns a fresh counter (value copied)" if okk else
                           "a clone of %s shares the counter of the original" % nm, True))
+            # .. and the clone starts where the original stands: the value the new counter ends up with is the original's
+            # position, or — when the original is exhausted (LEN <= its counter) — any position at or after the end
+            k = "IND|%s|clone-position" % nm
+            okp, whyp = _clone_position(env, cb, adt, r)
+            out.append(Ob("IND", k, "ok" if okp else "viol", cb.file_line(),
+                          "the clone's counter starts at the original's position (an exhausted original gives an exhausted "
+                          "clone)" if okp else
+                          "a clone of %s does not start at the original's current position: %s — it delivers elements the "
+                          "original has already passed, or skips elements" % (nm, whyp), True))
     # clone_from is the default (`*self = source.clone()`): an override would have to be proved equal to clone
     for i in F.impls_of_trait.get("std::clone::Clone", []):
         a_ = adt_of(i["self_ty"])
